@@ -70,30 +70,36 @@ Ltac solve_wf := repeat match goal with
   | |- _ => first [ vm_compute; reflexivity | vm_compute; discriminate ]
   end.
 
+Ltac hashok := first [left; reflexivity | right; left; reflexivity | right; right; reflexivity].
+Ltac nodup := repeat constructor; cbn; intuition discriminate.
+Ltac prove_wf :=
+  constructor;
+  [ discriminate
+  | vm_compute; reflexivity
+  | split; vm_compute; discriminate
+  | hashok
+  | reflexivity
+  | first [left; reflexivity | right; hashok]
+  | reflexivity
+  | vm_compute; reflexivity
+  | solve_wf
+  | nodup
+  | solve_wf
+  | nodup
+  | nodup
+  | let m := fresh "m" in let H := fresh "H" in
+    intros m H; cbn in H; repeat (destruct H as [<-|H]; [cbn; auto 10|]); contradiction
+  | vm_compute; reflexivity
+  | let d := fresh "d" in let H := fresh "H" in
+    intros d H; cbn in H; repeat (destruct H as [<-|H]; [cbn; intros; auto 10; discriminate|]); contradiction
+  | vm_compute; discriminate
+  | solve_wf
+  | solve_wf
+  | let b := fresh "b" in let H := fresh "H" in
+    intros b H; vm_compute in H; repeat (destruct H as [<-|H]; [cbn; intros; try discriminate|]); contradiction ].
+
 Lemma ex_wf : wf ex_state.
-Proof.
-  constructor.
-  - discriminate.
-  - reflexivity.
-  - cbn; lia.
-  - right; left; reflexivity.
-  - reflexivity.
-  - right; left; reflexivity.
-  - reflexivity.
-  - reflexivity.
-  - solve_wf.
-  - repeat constructor; cbn; intuition discriminate.
-  - solve_wf.
-  - repeat constructor; cbn; intuition discriminate.
-  - repeat constructor; cbn; intuition discriminate.
-  - intros m [<-|[<-|[<-|[]]]]; cbn; auto.
-  - reflexivity.
-  - intros d [<-|[<-|[<-|[]]]]; cbn; intros; auto; discriminate.
-  - vm_compute; discriminate.
-  - solve_wf.
-  - solve_wf.
-  - intros b [<-|[<-|[<-|[<-|[]]]]]; cbn; intros; try discriminate.
-Qed.
+Proof. prove_wf. Qed.
 
 (* the theorem replayed by computation on this state, at a clock before the newest info (clamping) *)
 Example ex_roundtrip_computed : decode (conf_of ex_state) (encode (T0 + 3) ex_state) = Ok (normalise (T0 + 3) ex_state).
@@ -157,26 +163,17 @@ Proof.
   split; [exact H|]. intros s' H'. rewrite H in H'. injection H' as <-. reflexivity.
 Qed.
 
+Definition ex_norm : cstate :=
+  {| c_block_size := 1024; c_hash_size := 2; c_hash := H_SPOOKY2; c_hashseed := c_hashseed ex_state;
+     c_prevhash := H_MURMUR3; c_prevhashseed := c_prevhashseed ex_state;
+     c_maps := [ {| cm_name := [100;50]; cm_pos := 1; cm_total := 4294967295; cm_free := 128; cm_uuid := [117;58] |};
+                 {| cm_name := [100;49]; cm_pos := 0; cm_total := 16384; cm_free := 127; cm_uuid := [] |} ];
+     c_parity := c_parity ex_state; c_disks := c_disks ex_state;
+     c_info := [T0 + 4; T0 + 1; T0 - 80 + 2; 0] |}.
+Example ex_norm_eq : normalise (T0 + 3) ex_state = ex_norm.
+Proof. vm_compute. reflexivity. Qed.
 Example ex_wf_normalised : wf (normalise (T0 + 3) ex_state).
-Proof.
-  assert (E : normalise (T0 + 3) ex_state =
-    {| c_block_size := 1024; c_hash_size := 2; c_hash := H_SPOOKY2; c_hashseed := c_hashseed ex_state;
-       c_prevhash := H_MURMUR3; c_prevhashseed := c_prevhashseed ex_state;
-       c_maps := [ nth 0 (c_maps ex_state) {| cm_name := []; cm_pos := 0; cm_total := 0; cm_free := 0; cm_uuid := [] |};
-                   nth 2 (c_maps ex_state) {| cm_name := []; cm_pos := 0; cm_total := 0; cm_free := 0; cm_uuid := [] |} ];
-       c_parity := c_parity ex_state; c_disks := c_disks ex_state;
-       c_info := [T0 + 4; T0 + 1; T0 - 80 + 2; 0] |}) by (vm_compute; reflexivity).
-  rewrite E. constructor; try solve_wf.
-  - cbn; lia.
-  - right; left; reflexivity.
-  - right; left; reflexivity.
-  - repeat constructor; cbn; intuition discriminate.
-  - repeat constructor; cbn; intuition discriminate.
-  - repeat constructor; cbn; intuition discriminate.
-  - intros m [<-|[<-|[]]]; cbn; auto.
-  - intros d [<-|[<-|[<-|[]]]]; cbn; intros; auto; discriminate.
-  - intros b [<-|[<-|[<-|[<-|[]]]]]; cbn; intros; try discriminate.
-Qed.
+Proof. rewrite ex_norm_eq. unfold ex_norm. cbn [c_hashseed c_prevhashseed c_parity c_disks ex_state]. prove_wf. Qed.
 
 (* ------------------------------------------------------------------------------------------------ *)
 (** * FINDING: a rewrite does not always reproduce the file byte for byte *)
